@@ -96,3 +96,42 @@ Definition or_ops_wf (c : opscase) : bool :=
     forallb (fun '(_, _, p) => match p with Some ps => wf_b ps | None => false end) (oc_renders c)
   else true.
 Definition ops_hyp (c : opscase) : bool := tree_names_ok (final_state c).
+
+(* ---- mixed histories: parse, edit by hand, extend ---- *)
+Record mixedcase := {
+  mx_init : list (list event);        (* documents parsed first (reader events) *)
+  mx_ops : list op;                   (* then these operations on the result *)
+  mx_more_docs : list (list node);    (* DOM of the documents the edited tree is extended with *)
+  mx_more : list (list event);        (* their reader events *)
+  mx_impl : iresult;                  (* the implementation's final result *)
+  mx_renders : list (options * int * option (list pstruct))
+}.
+Definition mixed_model (c : mixedcase) : outcome element :=
+  match run_evs (mx_init c) with
+  | Ok e0 =>
+      fold_left (fun acc x => match acc with Ok e => extend_struct_ev e x | o => o end)
+                (mx_more c) (Ok (run_ops e0 (mx_ops c)))
+  | o => o
+  end.
+Definition ev_mixed (c : mixedcase) : bool := iresult_eqb (mixed_model c) (mx_impl c).
+Definition ev_mixed_bytes (c : mixedcase) : bool :=
+  match mx_impl c with
+  | ITree e => negb (tree_in_sigma e)
+               || forallb (fun '(o, h, _) => (hash63 (to_serde_struct o e) =? h)%uint63) (mx_renders c)
+  | _ => true
+  end.
+(* whatever the tree looked like after the edits, the documents it was then extended with are
+   described by the final structs (quick-xml preset); only claimed where the model's own result
+   has the property, so that a peculiarity of hand-built trees is never blamed on the code *)
+Definition admits_all (e : element) (docs : list (list node)) : bool :=
+  forallb (admits_b quick_xml_de (map erase (render_abs quick_xml_de e))) docs.
+Definition mixed_hyp (c : mixedcase) : bool :=
+  match mixed_model c, mx_impl c with
+  | Ok m, ITree e => clash_free_tree m && names_plain_b m && clash_free_tree e && names_plain_b e
+                     && admits_all m (mx_more_docs c)
+  | _, _ => false
+  end.
+Definition or_mixed_admits (c : mixedcase) : bool :=
+  if mixed_hyp c then match mx_impl c with ITree e => admits_all e (mx_more_docs c) | _ => true end
+  else true.
+Definition show_mixed (c : mixedcase) := (mixed_model c, mx_impl c).
